@@ -16,10 +16,11 @@ What is replaced (module attributes of this process only; /repo is not touched):
     TERM_PRE_EXEC_FAIL (MAX_PREEXEC_RETRY = 1); post-exec after main whatever main's exit status; the job's status / exit status
     are main's, post-exec only adds JOB_STAT_PDONE / PERR; lsb_deletejob kills whatever runs and removes the record.
   * the processes of the chain are lock-stepped: every step of the scenario is the tiny script `g05step <name>` which reports
-    its start through a FIFO and blocks on a second FIFO until the driver hands it its exit code.  No sleeps, no polling.
+    its start through a FIFO and blocks on a second FIFO until the driver hands it its exit code (one fifo per step).  No sleeps, no polling.
   * lsf.LSFRequestArbitrator (4 worker processes + a thread in the original): SyncArbitrator builds the real LSFJobInfo in-line;
     monitor.CreateDeathAction -> nothing; lsf.time.sleep -> nothing; lsf.threading.Thread -> runs its target at start().
 """
+import errno
 import os
 import select
 import signal
@@ -249,10 +250,11 @@ def install():
 # ---------------------------------------------------------------------------------------------------------------------
 # fixture: the step script and the tools the task's own steps call
 
+STEP_NAMES = ["pre1", "pre2", "pre3", "main", "post1", "post2", "post3"]
 STEP = """#!/bin/sh
 # g05step NAME : announce the start, then wait for the exit code the driver decides
 echo "$1:$G05_MARK" > "$G05_DIR/evt"
-read rc < "$G05_DIR/ctl"
+read rc < "$G05_DIR/ctl.$1"
 exit $rc
 """
 MPIRUN = """#!/bin/sh
@@ -282,7 +284,9 @@ def make_fixture(d):
         with open(p, "w") as f:
             f.write(text)
         os.chmod(p, 0o755)
-    for f in ("evt", "ctl"):
+    # one control fifo per step: a write for one step can never be seen by the next one (the driver may still hold its write end
+    # open when the shell has already started the next step), nor be swallowed by a reader that is being killed
+    for f in ["evt"] + ["ctl.%s" % n for n in STEP_NAMES]:
         p = os.path.join(d, f)
         if not os.path.exists(p):
             os.mkfifo(p)
@@ -372,7 +376,7 @@ class ChainDriver:
                     return self.running
                 ev = dict(po.poll(60000))
                 if not ev:
-                    raise Stuck("no step announced and no exit within 60 s (phase %s)" % self.job.phase)
+                    raise Stuck("no step announced and no exit within 60 s (phase %s); processes: %s" % (self.job.phase, self._diagnose()))
                 # an announcement written just before the exit wins: always drain the fifo first
                 try:
                     chunk = os.read(self.evt, 4096)
@@ -389,6 +393,25 @@ class ChainDriver:
         finally:
             os.close(pfd)
 
+    def _diagnose(self):
+        out = []
+        try:
+            sid = os.getsid(self.job.proc.pid)
+            for pid in os.listdir("/proc"):
+                if pid.isdigit():
+                    try:
+                        if os.getsid(int(pid)) == sid:
+                            with open("/proc/%s/cmdline" % pid) as f:
+                                cmd = f.read().replace("\0", " ")[:150]
+                            with open("/proc/%s/wchan" % pid) as f:
+                                wch = f.read()
+                            out.append("%s [%s] %s" % (pid, wch, cmd))
+                    except OSError:
+                        pass
+        except OSError as e:
+            out.append(str(e))
+        return out
+
     def start_phase(self, phase):
         """The daemon starts the pre-exec / main / post-exec command line.  -> first announced step or None (it ran to its end)"""
         j = self.job
@@ -403,7 +426,27 @@ class ChainDriver:
 
     def step_exit(self, rc):
         """The running step exits with rc.  -> next announced step, or None when the phase process ended (phase_rc)"""
-        fd = os.open(os.path.join(self.d, "ctl"), os.O_WRONLY)
+        # the step opens the fifo for reading right after its announcement: wait for that (or for the death of the process)
+        path = os.path.join(self.d, "ctl.%s" % self.running)
+        pfd = os.pidfd_open(self.job.proc.pid)
+        try:
+            po = select.poll()
+            po.register(pfd, select.POLLIN)
+            waited = 0
+            while True:
+                try:
+                    fd = os.open(path, os.O_WRONLY | os.O_NONBLOCK)
+                    break
+                except OSError as e:
+                    if e.errno != errno.ENXIO:
+                        raise
+                if po.poll(2):
+                    raise Stuck("step %s died without taking its exit code (process exit %s)" % (self.running, self.job.proc.wait()))
+                waited += 2
+                if waited > 60000:
+                    raise Stuck("step %s never opened its control fifo" % self.running)
+        finally:
+            os.close(pfd)
         os.write(fd, ("%d\n" % rc).encode())
         os.close(fd)
         self.running = None
